@@ -132,7 +132,8 @@ v("c10-unescape-in-concat", ["C10"], [(E, "return &object.Str{Value: leftVal + r
 v("c11-reverse-in-place", ["C11"], [("evaluator/array_func.go", "\treversed := make([]object.Object, length)\n\n\tfor i, el := range elems {\n\t\treversed[length-i-1] = el\n\t}\n\n\treturn &object.Array{Elements: reversed}, nil", "\tfor i := 0; i < length/2; i++ {\n\t\telems[i], elems[length-1-i] = elems[length-1-i], elems[i]\n\t}\n\n\treturn receiver, nil")], rule="R-PURE")
 v("c11-wrong-name-in-message", ["C11"], [("evaluator/str_func.go", "msg := fmt.Sprintf(fail.ErrFuncFirstArgStr, \"trimRight\", object.STR_OBJ)", "msg := fmt.Sprintf(fail.ErrFuncFirstArgStr, \"trim\", object.STR_OBJ)")], rule="R-SIBLING")
 v("c11-arg-kind-ignored", ["C11"], [("evaluator/str_func.go", "\t\tstr, ok := args[0].(*object.Str)\n\n\t\tif !ok {\n\t\t\tmsg := fmt.Sprintf(fail.ErrFuncFirstArgStr, \"split\", object.STR_OBJ)\n\t\t\treturn nil, errors.New(msg)\n\t\t}\n\n\t\tseparator = str.Value", "\t\tif str, ok := args[0].(*object.Str); ok {\n\t\t\tseparator = str.Value\n\t\t}")], expect="violation", rule="R-")
-v("c12-kind-case-deleted", ["C12"], [("object/utils.go", "\tcase uint32:\n\t\treturn &Int{Value: int64(v)}\n", "")], rule="R-KINDS")
+v("c12-kind-case-deleted", ["C12"], [("object/utils.go", "\tcase uint32:\n\t\treturn &Int{Value: int64(v)}\n", ""), ("object/utils.go", "reflect.Uint16, reflect.Uint32, reflect.Uint64:", "reflect.Uint16, reflect.Uint64:")], rule="R-KINDS", note="uint32 has neither a case of the type switch nor a kind case")
+v("c12-benign-type-case-deleted", ["C12"], [("object/utils.go", "\tcase uint32:\n\t\treturn &Int{Value: int64(v)}\n", "")], expect="silent", note="since 0f76527 a value of type uint32 that misses the type switch is converted by the kind case: behaviour preserving")
 v("c12-map-key-test-removed", ["C12"], [("object/utils.go", "\tif valValue.Type().Key().Kind() != reflect.String {\n\t\treturn nil\n\t}\n\n", "")], rule="R-KINDS")
 v("c12-unexported-fields-exposed", ["C12"], [("object/utils.go", "\t\tif !field.IsExported() {\n\t\t\tcontinue\n\t\t}\n\n", "")], rule="R-")
 
